@@ -30,6 +30,8 @@ def rect_axes(dims, variant=0):
 def base_axes(spec):
     """increasing point axes in xyz order, from constructor arguments"""
     dims = spec["dims"]
+    if spec.get("explicit_axes"):
+        return [np.array(a, dtype=float) for a in spec["explicit_axes"]]
     if spec["cls"] == "rect":
         return rect_axes(dims, spec.get("variant", 0))
     if spec["cls"] == "esri":
